@@ -3,9 +3,11 @@
 tools/seed_check.sh (/tmp/seed/results*.log): patch.diff, the demonstration, meta.json (which property it
 breaks, what it needs to manifest, what was run and what came out, which checks catch it and how)."""
 import json, os, re, glob, shutil, sys
-OUT = "/tmp/seed/out"; DST = "/verif/seeded"
+OUT = sys.argv[1] if len(sys.argv) > 1 else "/tmp/seed/out"; DST = "/verif/seeded"
+LOGS = sys.argv[2] if len(sys.argv) > 2 else "/tmp/seed/results*.log"
+SUF = sys.argv[3] if len(sys.argv) > 3 else ""
 sections = {}
-for lf in sorted(glob.glob("/tmp/seed/results*.log"), key=os.path.getmtime):
+for lf in sorted(glob.glob(LOGS), key=os.path.getmtime):
     cur = None
     for line in open(lf, errors="replace"):
         m = re.match(r"=== seed (C\d+) #(\d+)", line)
@@ -30,7 +32,7 @@ for (pid, k), lines in sorted(sections.items()):
         m = re.match(r"\[(C\d+)\] ok:", l)
         if m:
             caught.append({"check": m.group(1), "how": "NOT caught (check stayed green)"})
-    d = os.path.join(DST, f"{pid}_{k}")
+    d = os.path.join(DST, f"{pid}_{SUF}{k}")
     os.makedirs(d, exist_ok=True)
     shutil.copyfile(os.path.join(src, f"patch{k}.diff"), os.path.join(d, "patch.diff"))
     for cand in (f"demo{k}_test.go",):
@@ -44,14 +46,14 @@ for (pid, k), lines in sorted(sections.items()):
         try: meta = json.load(open(mp))
         except Exception: meta = {"raw": open(mp).read()}
     meta.update({
-        "id": f"{pid}_{k}", "breaks_property": pid,
+        "id": f"{pid}_{SUF}{k}", "breaks_property": pid,
         "origin": "fresh sub-agent given only the property text and its own scratch worktree of /repo (nothing from /verif)",
         "confirmed": {"ran": "tools/seed_check.sh (scratch copy of /repo: demo without patch, apply patch, demo with patch, go build ./... && go test ./...; then tools/mutant_run.sh = the registered quick checks from a scratch copy of /verif with VERIF_REPO=<patched copy>)",
                       "result": demo_line, "all_confirmed": ok},
         "caught_by": caught})
     json.dump(meta, open(os.path.join(d, "meta.json"), "w"), indent=1)
-    index.append((f"{pid}_{k}", ok, caught))
-with open(os.path.join(DST, "INDEX.md"), "w") as f:
+    index.append((f"{pid}_{SUF}{k}", ok, caught))
+with open(os.path.join(DST, f"INDEX{SUF}.md"), "w") as f:
     f.write("# Seeded breaking changes (from independent sub-agents) and which checks catch them\n\n| seed | confirmed | caught by |\n|---|---|---|\n")
     for sid, ok, caught in index:
         f.write(f"| {sid} | {'yes' if ok else 'NO'} | " + "; ".join(f"{c['check']}: {c['how'].split(' (')[0]}" for c in caught) + " |\n")
